@@ -98,6 +98,47 @@ PROPS["C04"] = dict(
     assumptions=COMMON_ASSUME,
 )
 
+PROPS["C02"] = dict(
+    title="routing: first match wins, default deny, nothing leaks",
+    level="exploration",
+    technique="runtime differential monitor: reference first-match router with harness-computed filter truth vs. the real rules engine + process_request observed through recording connectors; cidr_match vs bitwise containment",
+    text="Builds the real GlobalState (rules::from_config + set_rules, recording connectors with random feature sets, a real load balancer) and runs generated requests through the real process_request. Rule lists of length 0..12 with duplicates, deny and filterless rules anywhere and filters drawn from a template family (==/!= on every request attribute, port ==/>=/_:, =~ literals, cidr_match, &&/||/!, and filters that error at run time) whose true/false/error value the harness computes itself. Oracle: connect() runs on exactly the connector the reference router names, on none at all when it refuses (deny, no match, missing feature), refusals are recorded as errors; cidr_match is compared with an independent bitwise containment on a dense IPv4/IPv6 grid.",
+    note="trusted: the harness truth functions for the filter templates; only canonical CIDRs are generated (the cidr crate rejects others at parse time)",
+    design_ref="DESIGN.md 3 C02",
+    steps=[inproc("c02")],
+    assumptions=COMMON_ASSUME,
+)
+PROPS["C03"] = dict(
+    title="destination integrity through every re-encoding",
+    level="exploration",
+    technique="runtime monitor composing the real inbound decoders and outbound encoders with independent strict reference parsers of the outgoing protocol; 2-hop check through the real peer decoder",
+    text="For destinations with host bytes of length 0..70000 in classes plain/colon/space/CR/LF/NUL/control/non-UTF-8/multibyte/IP-literal and edge ports, the harness writes the request in each inbound protocol (HTTP CONNECT, SOCKS5, SOCKS4a, SOCKS5-UDP header, RPFM attribute), lets the real decoder produce the target the rules see, feeds that target to every real outbound encoder (CONNECT via h11c_connect, SOCKS5, SOCKS4, SOCKS5-UDP, RPFM; full and partial writes) and parses the emitted bytes with strict reference parsers. Verdict: refused, or the next hop reads exactly the client's destination with no extra protocol fields; where the next hop is another redproxy, its real decoder must read it too.",
+    note="trusted: the harness reference parsers (RFC 1928 / SOCKS4a / RFC 7230 request head / RPFM TLV); IP literals compare as addresses",
+    design_ref="DESIGN.md 3 C03",
+    steps=[inproc("c03")],
+    assumptions=COMMON_ASSUME,
+)
+PROPS["C17"] = dict(
+    title="load-balancer selection laws",
+    level="exploration",
+    technique="runtime monitor on the real LoadBalanceConnector with recording members: window/histogram, group-by-key and membership checks under sequential and 16-task concurrent selection",
+    text="The balancer is built from YAML through from_value/init/verify for n=1..8 members. Round robin: every window of n sequential selections hits each member once and 16 concurrent tasks on the multi-thread runtime share k*n selections exactly evenly; hashBy over 8 string-typed key expressions: requests with equal key value (incl. equal strings from different target representations) go to one member; random: only members, every member hit in 1000*n draws; the connector recorded in the context equals the member whose connect ran; nested balancers stay inside their members.",
+    note="trusted: harness computation of the key strings; false-alarm probability of the random coverage test < e^-1000",
+    design_ref="DESIGN.md 3 C17",
+    steps=[inproc("c17")],
+    assumptions=COMMON_ASSUME,
+)
+PROPS["C15"] = dict(
+    title="rule hot-reload is atomic and all-or-nothing",
+    level="exploration",
+    technique="history checker: single-register linearizability of (replacement, request decision) histories with versioned rule lists whose torn evaluations produce a decision no list gives; all-or-nothing checks around every rejected replacement",
+    text="In-process: one task replaces the 14-rule list through the real set_rules at full speed, mixing in invalid lists (syntax error, type error, unknown field, unknown target at a random position), while 16 tasks run the real process_request on the multi-thread runtime; every decision must equal the decision of a version that was current during the request's interval (last completed before it began, or overlapping it). Sequentially, every rejected replacement must leave GET /rules and the next decision unchanged, a successful one must decide the very next request, and read-then-post must change nothing. End-to-end: the same through POST /api/rules on the shipped binary.",
+    note="trusted: monotonic clock ordering of call/return stamps; version decisions repeat every 8 versions",
+    design_ref="DESIGN.md 3 C15",
+    steps=[inproc("c15")],
+    assumptions=COMMON_ASSUME,
+)
+
 NOT_YET = {}
 
 
